@@ -7,7 +7,7 @@ from typing import List, Optional
 
 from . import hand, kinds
 from .core import AnalysisError, N, Repo, U, atoms, is_opaque, paths_of, positional_params, show, site, subst
-from .hand import (COMPARE_OPS, CONTRACT_OPS, COPY_OPS, EWHOM_OPS, JOIN_OPS, KNOWN_OPS, MOVE_OPS, NO_FLOAT8, NONHOM_OPS,
+from .hand import (COMPARE_OPS, CONTRACT_OPS, COPY_OPS, EWHOM_OPS, JOIN_OPS, KNOWN_OPS, MOVE_OPS, NO_FLOAT8, NONHOM_OPS, PERMUTE_OPS,
                    PREDICATE_OPS, PRESERVE_OPS, REQUANT_OPS, SCALE_OPS, HPath, ctor_fields, handler_paths, is_ctor)
 from .registries import Handler, handlers
 
@@ -578,6 +578,13 @@ def _check_ctor(repo, R, h: Handler, hp: HPath, f, line, tparams, ops):
             R("C05", "C05.R4", "ok" if ok else "bad", h, line, "transpose co-moves scale and flips axis",
               f"2-D transpose of a per-axis tensor: scale transposed with the payload, axis={ax} (flip expected), per-axis path={per_axis}", "a per-axis quantized matrix (axis 0 <-> -1)")
             _c06_fields(R, h, hp, f, line, x, ops, reshaping=True, transposed=True)
+            return
+        if ops <= PERMUTE_OPS and same_args and hp.fact(f"{x}.axis is None") is False:
+            # a permutation of the dimensions applied with the same arguments to the payload and to a scale of the same rank keeps every code in front of its
+            # own scale; what remains is the axis the result declares (first / last after the permutation, dequantized otherwise) - arithmetic on positions
+            # this rule does not evaluate: undecided, not wrong
+            R("C05", "C05.R4", "unknown", h, line, "", f"{sorted(ops)} co-moves the payload and the scale of the per-axis `{x}` with the same arguments; the axis it then declares (`{U(f['axis'])[:40]}`) is not evaluated by this rule")
+            R("C06", "C06.R8", "unknown", h, line, "", f"{sorted(ops)} co-moves the payload and the scale of the per-axis `{x}`; the axis it then declares (`{U(f['axis'])[:40]}`) is not evaluated by this rule")
             return
         R("C05", "C05.R4", "bad", h, line, f"scale moved by {sorted(ops)}", f"scale of `{x}` is passed through {sorted(ops)}: not valid for this op class", "a per-tensor (0-dim) scale")
         c06("C06.R8", False, f"scale moved by {sorted(ops)}", f"the scale of `{x}` is re-laid out by {sorted(ops)} alongside the payload: for an op that is not a 2-D transpose nothing ties the new layout of the scale to the axis the result declares",
